@@ -5,7 +5,7 @@ from checks.rcu_common import RcuBase
 
 class C12(RcuBase):
     pid = 'C12'
-    tags = ('C12',)
+    tags = ('C12', 'C07')   # a traversal racing with the construction / publication of what it reads is judged here too
 
 
 DEF = C12()
